@@ -25,6 +25,7 @@ const (
 	vpLieNotServed   // advertises a false filter hash, does not serve the filter
 	vpSilent         // does not answer at all
 	vpLieWrongPrev   // answers with a wrong previous filter header
+	vpOtherRange     // answers truthfully, but for a stop block other than the requested one (an older known block)
 	vpNumBehaviours
 )
 
@@ -137,6 +138,12 @@ func VerifH_C03_uncheckpointed() {
 				resp.PrevFilterHeader = e.filters[ft]
 				if p.behaviour == vpLieWrongPrev {
 					resp.PrevFilterHeader = chainhash.Hash{0xde, 0xad}
+				}
+				if p.behaviour == vpOtherRange {
+					// right type, right number of (true) hashes, right previous
+					// header, but the stop hash of the block below the requested one
+					resp.StopHash = e.chain[bt-1].BlockHash()
+					vpReach("answer-for-another-stop-block")
 				}
 				for idx := 0; idx < m; idx++ {
 					h := advertised(p, idx)
